@@ -19,8 +19,21 @@ static void pm(const mi_commit_mask_t* m) { for (int i = 0; i < MI_COMMIT_MASK_F
 
 static void rnd_mask(mi_commit_mask_t* m) {
   mi_commit_mask_create_empty(m);
-  switch (prng_below(&G, 8)) {
+  switch (prng_below(&G, 10)) {
     case 0: break;                                             // empty
+    case 5: case 6: {                                          // freed pages: 2..12 short runs (1, 8 or 2..24 bits) at positions biased to the
+      static const int counts[] = { 2, 2, 2, 3, 3, 4, 5, 6, 8, 12 };   // word boundaries (62..65, 126..129, ...), otherwise anywhere: runs in different
+      int runs = counts[prng_below(&G, 10)];                   // words, the later one at a lower OR higher bit position, runs that end at bit 63,
+      for (int r = 0; r < runs; r++) {                         // start at bit 0, or cross the boundary
+        size_t idx = (prng_below(&G, 2) == 0 ? (1 + prng_below(&G, 7)) * 64 + prng_below(&G, 4) - 2 : 1 + prng_below(&G, MI_COMMIT_MASK_BITS - 1));
+        size_t k = prng_below(&G, 4);
+        size_t cnt = (k <= 1 ? 1 : k == 2 ? 8 : 2 + prng_below(&G, 23));
+        if (idx + cnt > MI_COMMIT_MASK_BITS) cnt = MI_COMMIT_MASK_BITS - idx;
+        mi_commit_mask_t t; mi_commit_mask_create(idx, cnt, &t);
+        mi_commit_mask_set(m, &t);
+      }
+      break;
+    }
     case 1: mi_commit_mask_create_full(m); break;              // full
     case 2: for (int i = 0; i < MI_COMMIT_MASK_FIELD_COUNT; i++) m->mask[i] = prng_next(&G); break;                 // dense
     case 3: for (int i = 0; i < MI_COMMIT_MASK_FIELD_COUNT; i++) m->mask[i] = prng_next(&G) & prng_next(&G) & prng_next(&G); break;   // sparse
